@@ -418,6 +418,81 @@ theorem fs_filter_excludes_access_and_metadata :
     ∀ p ∈ MJ.Gen.fsEventFilter,
       (p.1.head? = some "Access" ∨ p.1.take 2 = ["Modify", "Metadata"]) → p.2 = false := by decide
 
+/-! ## the fs watcher's lifetime: a reload must not silence later file changes -/
+
+/-- the source's drop condition (`if … { fs_watcher.take() }` in `prepare_and_mark_reload`, its
+    4-row truth table regenerated on this run) is the model's `dropWatcher` -/
+theorem drop_cond_as_modelled :
+    MJ.Gen.watcherDropCond.length = 4 ∧
+    ∀ p f, (MJ.Gen.watcherDropCond.lookup (p, f)) = some (dropWatcher p f) := by decide
+
+/-- the watcher is thrown away ONLY when neither persistent_watch nor fast reload is on: with fast
+    reload the creator (which registered the paths) never runs again, with persistent_watch the
+    paths were registered once from outside — a dropped watcher would never be re-registered -/
+theorem watcher_kept_if_fast_or_persistent :
+    ∀ row ∈ MJ.Gen.watcherDropCond, (row.1.1 = true ∨ row.1.2 = true) → row.2 = false := by decide
+
+/-- **registered paths stay watched across reloads**: in every reachable state, if `watch_path` was
+    ever called then the watcher is alive, or it was thrown away by a reload that started with
+    persistent_watch off AND fast reload off and nobody has re-registered since (the documented
+    case: "when the environment is reloaded the watcher is cleared out, watch_path must be invoked
+    again") -/
+theorem watcher_alive_whenever_needed {σ : State} (h : Reachable σ) (hr : σ.registered = true) :
+    σ.watching = true ∨ σ.lastDrop = some (false, false) :=
+  (watchInv_of_reachable h).alive hr
+
+/-- step form: a reload that starts while fast reload or persistent_watch is on keeps the watcher -/
+theorem reload_keeps_watcher {σ σ' : State} {c : Active} (hc : c.pc = .checked true)
+    (hk : σ.persistent = true ∨ σ.fast = true) (hs : stepActive σ c = some σ') :
+    σ'.watching = σ.watching ∧ σ'.lastDrop = σ.lastDrop := by
+  unfold stepActive at hs
+  simp only [hc] at hs
+  cases hs
+  rcases hk with hk | hk <;> simp [dropWatcher, hk]
+
+/-- … and a reload that dropped it is about to run the creator (which can re-register), unless
+    fast reload is switched on by ANOTHER thread between the drop and the create/clear decision -/
+theorem dropped_then_creator_runs {σ σ' : State} {c : Active} (hc : c.pc = .reset)
+    (hf : σ.fast = false) (hs : stepActive σ c = some σ') :
+    ∃ c', σ'.cur = some c' ∧ c'.pc = .toCreate := by
+  unfold stepActive at hs
+  simp [hc, hf] at hs
+  cases hs
+  exact ⟨_, rfl, rfl⟩
+
+/-- a creator that calls `watch_path` re-registers -/
+theorem creator_reregisters {σ σ' : State} {c : Active} {rest : List COp}
+    (hc : c.pc = .creating (.watch :: rest)) (hs : stepActive σ c = some σ') :
+    σ'.watching = true ∧ σ'.lastDrop = none := by
+  unfold stepActive at hs
+  simp [hc] at hs
+  cases hs
+  exact ⟨rfl, rfl⟩
+
+/-- non-vacuity: fast reload, paths registered by the creator, a request, a reload: still watching -/
+example : ∃ σ, Reachable σ ∧ σ.registered = true ∧ σ.watching = true ∧ σ.clears = 1 ∧ σ.creates = 1 :=
+  ⟨run (init [.acqIdle { script := [.setFast true, .watch] }, .reqIdle, .acqIdle {}])
+      [0, 0, 0, 0, 0, 0, 0, 0, 0, 0, 1, 1, 2, 2, 2, 2, 2, 2, 2],
+   reachable_run (.init _ (by decide)) _, by decide⟩
+
+/-- non-vacuity of the documented exception: registered once from OUTSIDE, neither persistent nor
+    fast: the first reload silences the watcher -/
+example : ∃ σ, Reachable σ ∧ σ.registered = true ∧ σ.watching = false ∧
+    σ.lastDrop = some (false, false) :=
+  ⟨run (init [.acqIdle {}, .watchIdle, .reqIdle, .acqIdle {}])
+      [0, 0, 0, 0, 0, 0, 0, 0, 1, 2, 2, 3, 3, 3, 3, 3, 3, 3, 3],
+   reachable_run (.init _ (by decide)) _, by decide⟩
+
+/-- **a race the current code has** (recorded as a known finding, see lib/props/c20.py): the drop
+    decision and the create-or-clear decision read `fast_reload` in two different critical sections.
+    If another thread switches fast reload ON between them, the watcher was dropped (fast was off)
+    but the creator is not run (fast is on): the paths stay unwatched although fast reload is on. -/
+example : ∃ σ, Reachable σ ∧ σ.registered = true ∧ σ.watching = false ∧ σ.fast = true ∧
+    σ.cur = none ∧ σ.creates = 1 ∧ σ.clears = 1 :=
+  ⟨run (init [.acqIdle { script := [.watch] }, .reqIdle, .acqIdle {}, .fastIdle true])
+      [0, 0, 0, 0, 0, 0, 0, 0, 0, 1, 1, 2, 2, 2, 3, 2, 2, 2, 2],
+   reachable_run (.init _ (by decide)) _, by decide⟩
+
 theorem C20_holds : C20_full := by
   intro σ h
   refine ⟨fun r hr a ha hlt => (no_lost_request h r hr a ha hlt).1, request_before_check h, ?_,
